@@ -187,13 +187,17 @@ impl DeriveShape for SelectDef {
             )
         };
         for (_, _constraint, expr) in tuple {
-            let shape = expr.derive_shape(symbol_table);
+            // Only one of the arms is evaluated, which one can depend on the
+            // type of a value (`select (x is "int") => {true = x + 1, ..}`).
+            // What an arm does with a name says nothing about the name
+            // outside of that arm.
+            let shape = expr.derive_shape(&mut symbol_table.clone());
             open = open || is_open(&shape);
             narrowed_shape.merge_in_shape(shape, symbol_table);
         }
         // The default is one of the values the select can have.
         if let Some(expr) = default {
-            let shape = expr.derive_shape(symbol_table);
+            let shape = expr.derive_shape(&mut symbol_table.clone());
             open = open || is_open(&shape);
             narrowed_shape.merge_in_shape(shape, symbol_table);
         }
